@@ -5,7 +5,9 @@
      Proofs/RefStackP.v     (the 54-entry CV stack, add_chunk_chaining_value, finalize fold)
      Proofs/RefImplP.v      (Hasher::update / finalize, the three constructors)
      Proofs/TVCommon.v, TV1..TV4.v, TestVectorsP.v (test vectors, evaluated in the kernel)
-     Proofs/C15P.v          (both halves joined).
+     Proofs/C15P.v          (both halves joined)
+     Proofs/GenRefImplP.v   (the functions of reference_impl.rs translated from the source text,
+                             gen/GenRefImpl.v, against the model: C15_ref_src_*, at the end).
    Model: Model/RefImpl.v mirrors reference_impl/reference_impl.rs; `Ok` is the
    no-panic claim: every index, slice, `+=`/`-` overflow check and debug_assert of the
    reference implementation is an `assert!` of the model (the CV stack never needs
@@ -15,6 +17,7 @@ From V Require Import Base.Res Base.Word gen.GenConsts gen.GenTestVectors
   Spec.Compress Spec.Tree Spec.Blake3 Model.RefImpl
   Model.Platform Model.RsWide
   Proofs.RefCompressP Proofs.RefImplP Proofs.TVCommon Proofs.TestVectorsP Proofs.C15P.
+From V Require Import Base.Arr gen.GenRefImpl Proofs.GenRefImplP.
 Import ListNotations.
 Open Scope N_scope.
 
@@ -150,3 +153,98 @@ Print Assumptions C15_ref_agrees_with_rust_hash.
 Print Assumptions C15_ref_agrees_with_rust_keyed_hash.
 Print Assumptions C15_ref_agrees_with_rust_derive_key.
 Print Assumptions C15_nonvacuous.
+
+(* ---- the model against the source text -------------------------------------------------------------
+   gen/GenRefImpl.v is reference_impl/reference_impl.rs translated statement by statement (tools/gen_coq.py
+   gen_refimpl: order of statements, indices, rotation amounts, loop bounds, call arguments are the source's;
+   arrays are lists with Base/Arr.v's arr_get / arr_set, integer expressions go through Base/MachInt.v).
+   Each translated function equals the function of Model/RefImpl.v the theorems above are about, for all
+   arguments: array lengths are the declared types, u8 fields are below 256, nothing else is assumed. *)
+Theorem C15_ref_src_g : forall state a b c d mx my,
+  refsrc_g state a b c d mx my = ref_g state a b c d mx my.
+Proof. exact refsrc_g_eq. Qed.
+Print Assumptions C15_ref_src_g.
+
+Theorem C15_ref_src_round : forall state m, refsrc_round state m = ref_round state m.
+Proof. exact refsrc_round_eq. Qed.
+Print Assumptions C15_ref_src_round.
+
+(* the model's Ok: the index m[MSG_PERMUTATION[i]] is in bounds *)
+Theorem C15_ref_src_permute : forall m, length m = 16%nat -> ref_permute m = Ok (refsrc_permute m).
+Proof. exact refsrc_permute_eq. Qed.
+Print Assumptions C15_ref_src_permute.
+
+Theorem C15_ref_src_permute_is_spec : forall m, length m = 16%nat -> refsrc_permute m = Compress.permute m.
+Proof. exact refsrc_permute_is_spec. Qed.
+Print Assumptions C15_ref_src_permute_is_spec.
+
+Theorem C15_ref_src_compress : forall chaining_value block_words counter block_len flags,
+  length chaining_value = 8%nat -> length block_words = 16%nat ->
+  ref_compress chaining_value block_words counter block_len flags =
+  Ok (refsrc_compress chaining_value block_words counter block_len flags).
+Proof. exact refsrc_compress_eq. Qed.
+Print Assumptions C15_ref_src_compress.
+
+(* hence the translated source computes the specification's compression function *)
+Theorem C15_ref_src_compress_is_spec : forall cv block ctr bl fl,
+  length cv = 8%nat -> length block = 64%nat ->
+  refsrc_compress cv (words_of_bytes block) ctr bl fl = compress cv block bl ctr fl.
+Proof. exact refsrc_compress_is_spec. Qed.
+Print Assumptions C15_ref_src_compress_is_spec.
+
+Theorem C15_ref_src_first_8_words : forall w, refsrc_first_8_words w = ref_first_8_words w.
+Proof. exact refsrc_first_8_words_eq. Qed.
+Print Assumptions C15_ref_src_first_8_words.
+
+(* any number of words; the model takes `words` as its length, its assert 1600 is the source's debug_assert_eq! *)
+Theorem C15_ref_src_words_from_little_endian_bytes : forall bytes words,
+  ref_words_from_le_bytes bytes (length words) =
+  if refsrc_words_from_little_endian_bytes_debug_assert bytes words
+  then Ok (refsrc_words_from_little_endian_bytes bytes words) else Panic 1600.
+Proof. exact refsrc_words_from_le_bytes_model. Qed.
+Print Assumptions C15_ref_src_words_from_little_endian_bytes.
+
+Theorem C15_ref_src_words_from_little_endian_bytes_value : forall bytes words,
+  length bytes = (4 * length words)%nat ->
+  refsrc_words_from_little_endian_bytes bytes words = words_of_bytes bytes.
+Proof. exact refsrc_words_from_le_bytes_eq. Qed.
+Print Assumptions C15_ref_src_words_from_little_endian_bytes_value.
+
+(* struct Output / struct ChunkState as translated (records, fields in the source's order) -> the model's *)
+Theorem C15_ref_src_records : forall a b c d e f,
+  ro_of_src (refsrc_Output_mk a b c d e) = mkRO a b c d e /\
+  rcs_of_src (refsrc_ChunkState_mk a c b d e f) = mkRCS a c b d e f.
+Proof. intros. split; reflexivity. Qed.
+Print Assumptions C15_ref_src_records.
+
+Theorem C15_ref_src_output_chaining_value : forall o,
+  length (refsrc_Output_input_chaining_value o) = 8%nat -> length (refsrc_Output_block_words o) = 16%nat ->
+  ro_chaining_value (ro_of_src o) = Ok (refsrc_Output_chaining_value o).
+Proof. exact refsrc_Output_chaining_value_eq. Qed.
+Print Assumptions C15_ref_src_output_chaining_value.
+
+(* blocks_compressed and block_len are u8 *)
+Theorem C15_ref_src_chunk_state_len : forall c,
+  refsrc_ChunkState_blocks_compressed c < 256 -> refsrc_ChunkState_block_len c < 256 ->
+  refsrc_ChunkState_len c = Ok (rcs_len (rcs_of_src c)).
+Proof. exact refsrc_ChunkState_len_eq. Qed.
+Print Assumptions C15_ref_src_chunk_state_len.
+
+Theorem C15_ref_src_chunk_state_start_flag : forall c,
+  refsrc_ChunkState_start_flag c = Ok (rcs_start_flag (rcs_of_src c)).
+Proof. exact refsrc_ChunkState_start_flag_eq. Qed.
+Print Assumptions C15_ref_src_chunk_state_start_flag.
+
+Theorem C15_ref_src_parent_output : forall left_child_cv right_child_cv key_words flags,
+  length left_child_cv = 8%nat -> length right_child_cv = 8%nat ->
+  ro_of_src (refsrc_parent_output left_child_cv right_child_cv key_words flags) =
+  ref_parent_output left_child_cv right_child_cv key_words flags.
+Proof. exact refsrc_parent_output_eq. Qed.
+Print Assumptions C15_ref_src_parent_output.
+
+Theorem C15_ref_src_parent_cv : forall left_child_cv right_child_cv key_words flags,
+  length left_child_cv = 8%nat -> length right_child_cv = 8%nat -> length key_words = 8%nat ->
+  ref_parent_cv left_child_cv right_child_cv key_words flags =
+  Ok (refsrc_parent_cv left_child_cv right_child_cv key_words flags).
+Proof. exact refsrc_parent_cv_eq. Qed.
+Print Assumptions C15_ref_src_parent_cv.
